@@ -1289,16 +1289,12 @@ func vC13CohortCase(t *testing.T, r *rand.Rand) map[string]any {
 			keys = append(keys, k)
 		}
 	}
-	type group struct {
-		leader    *vC13Member
-		followers []*vC13Member
-	}
 	mk := func(k vC13QKey, follower bool) *vC13Member {
 		return &vC13Member{key: k, edns: r.Intn(4) != 0, d: vC13CohortDown(r, g, k, follower)}
 	}
-	var groups []*group
+	var groups []*vC13Group
 	for _, k := range keys {
-		gr := &group{leader: mk(k, false)}
+		gr := &vC13Group{leader: mk(k, false)}
 		for i, nf := 0, r.Intn(4); i < nf; i++ {
 			fk := k
 			switch r.Intn(3) {
@@ -1313,7 +1309,28 @@ func vC13CohortCase(t *testing.T, r *rand.Rand) map[string]any {
 		}
 		groups = append(groups, gr)
 	}
+	// prelude: ordinary queries, one after the other, at the same instant
+	var pre []*vC13Member
+	for i, np := 0, r.Intn(3); i < np; i++ {
+		k := keys[r.Intn(len(keys))]
+		if r.Intn(2) == 0 && len(k.name) > 0 {
+			k.name = k.name[1:] // a parent: its zone failure covers the group
+		}
+		pre = append(pre, mk(k, true))
+	}
+	kk := "cohort"
+	if off {
+		kk = "cohort-rfc9520-off"
+	}
+	return vC13CohortRun(t, kk, cfg, rawSize, rawInit, rawMax, off, pre, groups)
+}
 
+type vC13Group struct {
+	leader    *vC13Member
+	followers []*vC13Member
+}
+
+func vC13CohortRun(t *testing.T, kk string, cfg *config.Config, rawSize int, rawInit, rawMax time.Duration, off bool, prelude []*vC13Member, groups []*vC13Group) map[string]any {
 	var out map[string]any
 	synctest.Test(t, func(t *testing.T) {
 		c := New(cfg)
@@ -1338,17 +1355,8 @@ func vC13CohortCase(t *testing.T, r *rand.Rand) map[string]any {
 			desc = append(desc, fmt.Sprintf("%s %s edns=%v downstream{%s} -> rcode=%d ede=%d downstream_calls=%d began_after_leader_returned=%v", kind, mkk.coq(), m.edns, m.d.String(), m.rcode, m.ede, m.calls, m.late))
 			return fmt.Sprintf("CM %s %v %s %d %s %d %v", mkk.coq(), m.edns || m.key.scope.IsValid(), m.d.coq(), m.rcode, edeC, m.calls, m.late)
 		}
-		// prelude: ordinary queries, one after the other, at the same instant
 		var pre []string
-		for i, np := 0, r.Intn(3); i < np; i++ {
-			k := keys[r.Intn(len(keys))]
-			if r.Intn(2) == 0 && len(k.name) > 0 {
-				k.name = k.name[1:] // a parent: its zone failure covers the group
-			}
-			m := mk(k, true)
-			if m.d.kind == 1 && m.d.respScope >= 2 {
-				m.d.respScope = 0
-			}
+		for _, m := range prelude {
 			m.rcode, m.ede, m.calls, m.scope = vC13Serve(c, ednsH, m.key, m.edns, false, false, m.d)
 			pre = append(pre, memberCoq("before", m))
 		}
@@ -1448,10 +1456,6 @@ func vC13CohortCase(t *testing.T, r *rand.Rand) map[string]any {
 			gs = append(gs, fmt.Sprintf("(%s,[%s])", lc, strings.Join(fs, ";")))
 		}
 		final, flen := vC13Dump(c.failure)
-		kk := "cohort"
-		if off {
-			kk = "cohort-rfc9520-off"
-		}
 		out = map[string]any{
 			"k": kk,
 			"coq": fmt.Sprintf("CaseCohort (%d) (%d) (%d) %v (%d) (%d) %s [%s] [%s] %d %s", rawSize, int64(rawInit), int64(rawMax), off, int64(init), int64(max), tab.coq(), strings.Join(pre, ";"), strings.Join(gs, ";"), inFlight, final),
@@ -1598,6 +1602,77 @@ func vC13PipeEpisode(t *testing.T, ep vC13PipeCorpusCase) map[string]any {
 	}
 }
 
+// Fixed cohorts (VERIF_CORPUS/cohort.json), replayed first on every run: one question,
+// a leader and n followers (odd ones spell the name in upper case), the leader's outcome,
+// optionally a zone failure the resolver publishes on the way.
+type vC13CohortCorpusCase struct {
+	Name      string `json:"name"`
+	Qtype     uint16 `json:"qtype"`
+	CD        bool   `json:"cd"`
+	Scope     string `json:"scope"`
+	Followers int    `json:"followers"`
+	Leader    string `json:"leader"` // shared | local | useful
+	Zone      string `json:"zone"`
+}
+
+func vC13CohortCorpus(t *testing.T) []map[string]any {
+	dir := os.Getenv("VERIF_CORPUS")
+	if dir == "" {
+		return nil
+	}
+	b, err := os.ReadFile(dir + "/cohort.json")
+	if os.IsNotExist(err) {
+		return nil
+	}
+	if err != nil {
+		t.Fatalf("corpus: %v", err)
+	}
+	var eps []vC13CohortCorpusCase
+	if err := json.Unmarshal(b, &eps); err != nil {
+		t.Fatalf("corpus cohort.json: %v", err)
+	}
+	var out []map[string]any
+	for _, ep := range eps {
+		cfg := &config.Config{CacheSize: 1024, Expire: 300}
+		cfg.ECS.Enabled = true
+		cfg.ECS.ClientNetworks = []string{"0.0.0.0/0", "::/0"}
+		cfg.ECS.ForwardV4Max = 24
+		cfg.ECS.ForwardV6Max = 56
+		k := vC13QKey{name: vC13LabelsOf(ep.Name), qtype: ep.Qtype, qclass: dns.ClassINET, cd: ep.CD}
+		if ep.Scope != "" {
+			pfx, err := netip.ParsePrefix(ep.Scope)
+			if err != nil {
+				t.Fatalf("corpus cohort.json: scope %q: %v", ep.Scope, err)
+			}
+			k.scope = pfx
+		}
+		var d vC13Down
+		switch ep.Leader {
+		case "shared":
+			d = vC13Down{kind: 0, rcode: dns.RcodeServerFailure}
+		case "local":
+			d = vC13Down{kind: 0, rcode: dns.RcodeServerFailure, marked: 1}
+		case "useful":
+			d = vC13Down{kind: 1, rcode: dns.RcodeNameError}
+		default:
+			t.Fatalf("corpus cohort.json: leader %q", ep.Leader)
+		}
+		if ep.Zone != "" && d.kind == 0 && !d.local() {
+			d.zoneAct, d.zone, d.zoneClass = true, vC13LabelsOf(ep.Zone), dns.ClassINET
+		}
+		gr := &vC13Group{leader: &vC13Member{key: k, edns: true, d: d}}
+		for i := 0; i < ep.Followers; i++ {
+			fk := k
+			if i%2 == 1 {
+				fk.name = vC13LabelsOf(strings.ToUpper(ep.Name))
+			}
+			gr.followers = append(gr.followers, &vC13Member{key: fk, edns: i%3 != 2, d: vC13Down{kind: 0, rcode: dns.RcodeServerFailure}})
+		}
+		out = append(out, vC13CohortRun(t, "cohort-corpus", cfg, 0, 0, 0, false, nil, []*vC13Group{gr}))
+	}
+	return out
+}
+
 func TestVerifC13Pipe(t *testing.T) {
 	tr := vC13Open(t)
 	defer tr.f.Close()
@@ -1606,6 +1681,9 @@ func TestVerifC13Pipe(t *testing.T) {
 	r := rand.New(rand.NewSource(seed + 1000003))
 	for _, ep := range vC13PipeCorpus(t) {
 		tr.emit(vC13PipeEpisode(t, ep))
+	}
+	for _, m := range vC13CohortCorpus(t) {
+		tr.emit(m)
 	}
 	for i := 0; i < n; i++ {
 		tr.emit(vC13PipeHistory(r))
